@@ -131,12 +131,12 @@ theorem slash_slashed {s : State} (hi : Inv s) {a : Addr} {v : Val} (hv : aget s
 /-! ## Unjail -/
 
 /-- `handleMsgUnjail` succeeds only for an authorised signer, a jailed node with at least the minimum
-stake, and an elapsed jail period — in block time and, as coded, also in wall-clock time `now` -/
-theorem handleUnjail_ok_requires {s : State} {h t now : Int} {a signer : Addr}
-    (hok : (handleUnjail s h t now a signer).2 = .ok) :
+stake, and a jail period that has elapsed in block time -/
+theorem handleUnjail_ok_requires {s : State} {h t : Int} {a signer : Addr}
+    (hok : (handleUnjail s h t a signer).2 = .ok) :
     ∃ v si, aget s.vals a = some v ∧ aget s.signInfo v.addr = some si ∧
       signerOk v.addr v.output signer = true ∧ s.params.minStake ≤ v.tokens ∧ v.jailed = true ∧
-      si.jailedUntil ≤ t ∧ si.jailedUntil ≤ now := by
+      si.jailedUntil ≤ t := by
   unfold handleUnjail at hok
   cases hv : aget s.vals a with
   | none => simp [hv] at hok
@@ -155,18 +155,28 @@ theorem handleUnjail_ok_requires {s : State} {h t now : Int} {a signer : Addr}
           | none => simp [hsi] at hok
           | some si =>
             simp only [hsi] at hok
-            by_cases h4 : si.jailedUntil > now
-            · simp [h4] at hok
-            · simp only [h4] at hok
-              by_cases h5 : t < si.jailedUntil
-              · simp [h5] at hok
-              · refine ⟨v, si, rfl, hsi, ?_, by omega, ?_, by omega, by omega⟩
-                · cases hb : signerOk v.addr v.output signer <;> simp_all
-                · cases hb : v.jailed <;> simp_all
+            by_cases h5 : t < si.jailedUntil
+            · simp [h5] at hok
+            · refine ⟨v, si, rfl, hsi, ?_, by omega, ?_, by omega⟩
+              · cases hb : signerOk v.addr v.output signer <;> simp_all
+              · cases hb : v.jailed <;> simp_all
+
+/-- … and conversely these conditions suffice: nothing else (in particular no wall clock) decides an unjail -/
+theorem handleUnjail_ok_of {s : State} {h t : Int} {a signer : Addr} {v : Val} {si : SignInfo}
+    (hv : aget s.vals a = some v) (hsi : aget s.signInfo v.addr = some si)
+    (hsg : signerOk v.addr v.output signer = true) (hmin : s.params.minStake ≤ v.tokens) (hj : v.jailed = true)
+    (ht : si.jailedUntil ≤ t) : (handleUnjail s h t a signer).2 = .ok := by
+  unfold handleUnjail
+  simp only [hv, hsi]
+  have h1 : ¬ (signerOk v.addr v.output signer = false) := by simp [hsg]
+  have h2 : ¬ (v.tokens < s.params.minStake) := by omega
+  have h3 : ¬ (v.jailed = false) := by simp [hj]
+  have h5 : ¬ (t < si.jailedUntil) := by omega
+  simp only [if_neg h1, if_neg h2, if_neg h3, if_neg h5]
 
 /-- a rejected unjail changes nothing but (when the stake is below the minimum) the waiting set -/
-theorem handleUnjail_err_vals {s : State} {h t now : Int} {a signer : Addr}
-    (herr : (handleUnjail s h t now a signer).2 ≠ .ok) : (handleUnjail s h t now a signer).1.vals = s.vals := by
+theorem handleUnjail_err_vals {s : State} {h t : Int} {a signer : Addr}
+    (herr : (handleUnjail s h t a signer).2 ≠ .ok) : (handleUnjail s h t a signer).1.vals = s.vals := by
   unfold handleUnjail at herr ⊢
   cases hv : aget s.vals a with
   | none => rfl
@@ -184,10 +194,8 @@ theorem handleUnjail_err_vals {s : State} {h t now : Int} {a signer : Addr}
             simp only [hsi] at herr ⊢
             split
             · rfl
-            · split
-              · rfl
-              · rename_i h1 h2 h3 h4 h5
-                simp [hsi, h1, h2, h3, h4, h5] at herr
+            · rename_i h1 h2 h3 h4
+              simp [hsi, h1, h2, h3, h4] at herr
 
 /-! ## Downtime accounting -/
 
